@@ -1073,12 +1073,10 @@ class SQLObject(with_metaclass(declarative.DeclarativeMeta, object)):
             func(self)
 
     def expire(self):
-        if self.sqlmeta.expired:
-            return
+        # no shortcut for an instance that is expired already: a lazy
+        # assignment made since then has cached (and queued) a value
         self._SO_writeLock.acquire()
         try:
-            if self.sqlmeta.expired:
-                return
             for column in self.sqlmeta.columnList:
                 # an attribute may be gone already: a reload that raised
                 # SQLObjectNotFound cleared the flag and loaded nothing
